@@ -5,7 +5,7 @@ from .retro_common import fixture_values
 PROPERTY = "C13"
 LEVEL = "model_checking"
 TASK_QUOTA = 60
-BUDGET_S = {"quick": 280, "thorough": 1700}
+BUDGET_S = {"quick": 600, "thorough": 3000}
 FUNCTIONS = [
     "batchie.retrospective.SampleSegregatingPermutationPlateGenerator / PairwisePlateGenerator._generate_plates",
     "batchie.retrospective.SparseCoverPlateGenerator._generate_and_unmask_initial_plate",
